@@ -498,8 +498,10 @@ fn wellformed_verdicts(cx: &Ctx, i: usize, o: &mut Outcome) {
         match cl {
             Some(Ok(n)) => {
                 // only a fully delivered response can be measured (completeness itself is C04's)
-                let fully = c.writes.iter().all(|w| w.ret >= 0) && c.server_closed;
-                if n != resp.body.len() && (resp.body.len() > n || fully) && cx.complete(i).is_ok() {
+                // (a clean transport that took every byte and was closed by the server: whatever
+                // is missing was never written)
+                let fully = c.writes.iter().all(|w| w.ret >= 0 && w.ret as usize == w.len) && c.server_closed;
+                if n != resp.body.len() && (resp.body.len() > n || fully) {
                     o.verdicts.push(v("C05", "content_length.mismatch", format!("request {:?}: Content-Length {} but {} body bytes ({})", req_txt, n, resp.body.len(), kind), Some(i)));
                 }
             }
@@ -529,6 +531,16 @@ fn c05(cx: &Ctx, o: &mut Outcome) {
     for i in cx.scripted() {
         let sc_conn = &cx.sc.conns[i];
         let c = &r.conns[i];
+        // the handler-error answer is a response like any other
+        {
+            let mut f = sc_conn.faults.clone();
+            f.handler_err = false;
+            if sc_conn.faults.handler_err && f.is_clean() && sc_conn.strict_delivery() && !c.outbound.is_empty() {
+                o.evaluated = true;
+                wellformed_verdicts(cx, i, o);
+                continue;
+            }
+        }
         // write faults: what arrived is a prefix of the response, all of it after a lone EINTR
         if sc_conn.strict_delivery() && !sc_conn.faults.only_cuts() {
             let mut f = sc_conn.faults.clone();
